@@ -332,7 +332,12 @@ class DerivedTypeArgumentsTransformation(Transformation):
         def assumed_dim_or_none(shape):
             if not shape:
                 return None
-            return tuple(RangeIndex((None, None)) for _ in shape)
+            # Retain declared lower bounds of the member (e.g., ``arr(0:2)`` becomes ``arr(0:)``),
+            # because the indices used in the routine's body refer to them
+            return tuple(
+                RangeIndex((s.lower, None)) if isinstance(s, RangeIndex) and s.lower is not None
+                else RangeIndex((None, None)) for s in shape
+            )
 
         # Build the arguments map to update the call signature
         arguments_map = {}
